@@ -262,17 +262,22 @@ theorem prefix_preserves {fs0 : Fs} {P : List Nat} (steps : List Step) :
 
 /-! ### the working-copy invariant -/
 
-/-- the working copy's recorded operation is the head, or the head's only parent while the
-    head is a fresh child (published, working copy not yet updated) -/
+theorem headTree_of_look {fs : Fs} {h : Nat} {r : OpRec} (hr : look h fs.ops = some r) :
+    headTree fs h = look r.view fs.views := by
+  simp [headTree, hr]
+
+/-- Either the working copy is at the (single) head and `tree_state` records the head's
+    working-copy tree; or its recorded operation is the head's only parent while the head is a
+    fresh child (published, working copy not yet updated). -/
 def WcInv (fs : Fs) (h : Nat) : Prop :=
-  fs.wcOp = h ∨
+  (fs.wcOp = h ∧ fs.heads = [h] ∧ headTree fs h = some fs.wcTree) ∨
     (fs.wcOp ≠ h ∧ NotMent h fs.ops ∧ (∃ v, look h fs.ops = some ⟨[fs.wcOp], v⟩) ∧
       (look fs.wcOp fs.ops).isSome = true)
 
 theorem wcStatus_of_inv {fs0 fs : Fs} {h : Nat} {P : List Nat} (inv : RepoInv fs0 fs h P)
     (wc : WcInv fs h) : wcStatus fs = .fresh ∨ wcStatus fs = .stale := by
   obtain ⟨r, t, hr, _, hload⟩ := load_of_inv inv
-  rcases wc with hw | ⟨hne, hnm, ⟨v, hl⟩, hsome⟩
+  rcases wc with ⟨hw, _, _⟩ | ⟨hne, hnm, ⟨v, hl⟩, hsome⟩
   · left; simp [wcStatus, hload, hw]
   · have hpos := ops_length_pos hl
     have hfuel : fuel fs = (fs.ops.length - 1) + 2 := by simp [fuel]; omega
@@ -285,6 +290,18 @@ theorem wcStatus_of_inv {fs0 fs : Fs} {h : Nat} {P : List Nat} (inv : RepoInv fs
     · left; simp [wcStatus, hload, hne, hnone, h1, h2, ht]
     · right; simp [wcStatus, hload, hne, hnone, h1, h2, ht]
 
+/-- a working copy that claims to be at the loaded head records the head's tree -/
+theorem wc_consistent_of_inv {fs0 fs : Fs} {h : Nat} {P : List Nat} (inv : RepoInv fs0 fs h P)
+    (wc : WcInv fs h) (l : Loaded) (hl : load fs = some l) (hw : fs.wcOp = l.head) :
+    fs.wcTree = l.tree := by
+  obtain ⟨r, t, hr, ht, hload⟩ := load_of_inv inv
+  rw [hl] at hload
+  cases hload
+  rcases wc with ⟨_, _, htree⟩ | ⟨hne, _⟩
+  · rw [headTree_of_look hr, ht] at htree
+    exact (Option.some.inj htree).symm
+  · exact absurd hw hne
+
 theorem wc_step_preserves {fs0 fs : Fs} {h : Nat} {P : List Nat} (inv : RepoInv fs0 fs h P)
     (wc : WcInv fs h) (s : Step) (ok : okStep fs s = true) (okw : okWc fs s = true) :
     WcInv (s.apply fs) (nextHead h s) := by
@@ -293,15 +310,44 @@ theorem wc_step_preserves {fs0 fs : Fs} {h : Nat} {P : List Nat} (inv : RepoInv 
   | ws => exact wc
   | wl o => exact wc
   | wf => exact wc
-  | st t => exact wc
-  | wv v t => exact wc
-  | hr p => exact wc
+  | st t =>
+    rcases wc with ⟨hw, hh, htree⟩ | r
+    · left
+      refine ⟨hw, hh, ?_⟩
+      simp only [okWc, hh, hw, beq_self_eq_true, Bool.not_true, Bool.false_or, beq_iff_eq] at okw
+      exact okw
+    · exact Or.inr r
+  | wv v t =>
+    rcases wc with ⟨hw, hh, htree⟩ | r
+    · left
+      refine ⟨hw, hh, ?_⟩
+      obtain ⟨r0, t0, hr0, ht0⟩ := inv.opRec
+      rw [headTree_of_look hr0, ht0] at htree
+      have hr0' : look h (Step.apply fs (.wv v t)).ops = some r0 := hr0
+      show headTree (Step.apply fs (.wv v t)) h = some fs.wcTree
+      rw [headTree_of_look hr0']
+      simp only [Step.apply, nextHead, look_cons]
+      by_cases hv : r0.view = v
+      · subst hv
+        simp only [okStep, ht0, beq_iff_eq] at ok
+        simp [← ok, htree]
+      · simp [hv, ht0, htree]
+    · exact Or.inr r
+  | hr p =>
+    rcases wc with ⟨_, hh, _⟩ | r
+    · simp [okStep, hh] at ok
+    · exact Or.inr r
   | sc o =>
-    -- `checkout` is only rewritten once the head is the single published operation
+    -- `checkout` is only rewritten once the head is the single published operation and
+    -- `tree_state` already records its tree
     left
     simp only [okStep, beq_iff_eq] at ok
+    simp only [okWc, beq_iff_eq] at okw
     rcases inv.heads with hh | ⟨p, hh, _⟩
-    · rw [hh] at ok; simp at ok; simp [Step.apply, nextHead, ok]
+    · rw [hh] at ok
+      simp at ok
+      subst ok
+      exact ⟨rfl, hh, okw⟩
     · rw [hh] at ok; simp at ok
   | wo o r =>
     simp only [okWc, beq_iff_eq] at okw
@@ -310,10 +356,23 @@ theorem wc_step_preserves {fs0 fs : Fs} {h : Nat} {P : List Nat} (inv : RepoInv 
       rcases inv.heads with hh | ⟨p, hh, _⟩
       · exact hh
       · simp [hh] at ok
-    left
-    rw [hh] at okw
-    simp at okw
-    simp [Step.apply, nextHead, okw]
+    have hoh : o ≠ h := by
+      intro e; subst e; simp [hh] at ok
+    rcases wc with ⟨hw, _, htree⟩ | ⟨hne, _⟩
+    · left
+      refine ⟨hw, hh, ?_⟩
+      obtain ⟨r0, _, hr0, _⟩ := inv.opRec
+      have hho : h ≠ o := fun e => hoh e.symm
+      have hr0' : look h (Step.apply fs (.wo o r)).ops = some r0 := by
+        simp [Step.apply, look_cons, hho, hr0]
+      show headTree (Step.apply fs (.wo o r)) h = some fs.wcTree
+      rw [headTree_of_look hr0']
+      show look r0.view fs.views = some fs.wcTree
+      rw [headTree_of_look hr0] at htree
+      exact htree
+    · rw [hh] at okw
+      simp at okw
+      exact absurd okw.symm hne
   | ha o =>
     simp only [okWc, beq_iff_eq] at okw
     rcases inv.heads with hh | ⟨p, hh, _⟩
